@@ -95,7 +95,7 @@ def dhComputeConfigs : List (String × List Stmt) := [
 def sha256Final : List Stmt := [
   .call "" "SHA256_Final_internal" ["digest", "ctx", "tmp32"] none,
   .call "" "insecure_memzero" ["ctx", "sizeof(SHA256_CTX)"] none,
-  .call "" "insecure_memzero" ["tmp32", "sizeof(tmp32)"] none]
+  .call "" "insecure_memzero" ["tmp32", "sizeof(uint32_t) * 72"] none]
 
 /-- `SHA256_Final`: one statement list per preprocessor configuration (named by the macros defined in it) -/
 def sha256FinalConfigs : List (String × List Stmt) := [
@@ -107,7 +107,7 @@ def sha256Buf : List Stmt := [
   .call "" "SHA256_Update_internal" ["&ctx", "in", "len", "tmp32"] none,
   .call "" "SHA256_Final_internal" ["digest", "&ctx", "tmp32"] none,
   .call "" "insecure_memzero" ["&ctx", "sizeof(SHA256_CTX)"] none,
-  .call "" "insecure_memzero" ["tmp32", "sizeof(tmp32)"] none]
+  .call "" "insecure_memzero" ["tmp32", "sizeof(uint32_t) * 72"] none]
 
 /-- `SHA256_Buf`: one statement list per preprocessor configuration (named by the macros defined in it) -/
 def sha256BufConfigs : List (String × List Stmt) := [
@@ -130,8 +130,8 @@ def hmacSha256Buf : List Stmt := [
   .call "" "HMAC_SHA256_Update_internal" ["&ctx", "in", "len", "tmp32"] none,
   .call "" "HMAC_SHA256_Final_internal" ["digest", "&ctx", "tmp32", "&tmp8[0]"] none,
   .call "" "insecure_memzero" ["&ctx", "sizeof(HMAC_SHA256_CTX)"] none,
-  .call "" "insecure_memzero" ["tmp32", "sizeof(tmp32)"] none,
-  .call "" "insecure_memzero" ["tmp8", "sizeof(tmp8)"] none]
+  .call "" "insecure_memzero" ["tmp32", "sizeof(uint32_t) * 72"] none,
+  .call "" "insecure_memzero" ["tmp8", "96"] none]
 
 /-- `HMAC_SHA256_Buf`: one statement list per preprocessor configuration (named by the macros defined in it) -/
 def hmacSha256BufConfigs : List (String × List Stmt) := [
